@@ -261,7 +261,10 @@ def cases(chunk):
             scale = ext / 10.0 if ext > 0 else 1.0
             for rel in REL_TOLS:
                 for mode in ("DP", "VW"):
-                    yield {"kind": "simp", "pts": pts, "tol": rel * scale, "mode": mode, "style": style}
+                    c = {"kind": "simp", "pts": pts, "tol": rel * scale, "mode": mode, "style": style}
+                    if len(pts) > 300:
+                        c["limit_x"] = 6
+                    yield c
 
 
 # --------------------------------------------------------------------------
